@@ -388,7 +388,7 @@ def rule_shapes(F, ev, R, config, rule="R-SHAPES"):
             from rules_problem2 import jacobian_column_write
             ax = problem_axioms(jb.key)
             try:
-                alloc, k, val, e, effs = jacobian_column_write(F, ev, jb)
+                alloc, k, val, e, effs, _cn = jacobian_column_write(F, ev, jb)
                 shp = Shapes(F, ev, ax)
                 sa = shp.shape(alloc)
                 sv = shp.shape(val)
